@@ -219,3 +219,6 @@ theorem setParents_at_then_read {sys sys' : Sys} (wf : SysWF sys) {c : Ctx} {n :
     have hg' : (sys.put l').get? n = some l' := by rw [Sys.get?_put]; simp [hname]
     rw [Sys.at_some _ hg', setParents_then_get hs now']
     simp only [Sys.put_same (wf.put l') hg']
+
+theorem sysFresh_ab_wf (k : Kind) : SysWF (Sys.fresh k ["a", "b"]) :=
+  ⟨by simp [Sys.fresh, Sys.keys], by intro k l h; simp [Sys.fresh] at h; rcases h with ⟨rfl, rfl⟩ | ⟨rfl, rfl⟩ <;> rfl⟩
